@@ -527,6 +527,11 @@ static void push_args2(Node *args, bool first_pass) {
   if ((first_pass && !args->pass_by_stack) || (!first_pass && args->pass_by_stack))
     return;
 
+  if (args->stack_padding) {
+    println("  sub $%d, %%rsp", args->stack_padding);
+    depth += args->stack_padding / 8;
+  }
+
   gen_expr(args);
 
   switch (args->ty->kind) {
@@ -614,6 +619,36 @@ static int push_args(Node *node) {
         stack++;
       }
     }
+  }
+
+  // An argument with 16-byte alignment (long double, or a struct
+  // containing one) starts at a 16-byte aligned offset of the stack
+  // argument area: pad after its predecessor where necessary.
+  int offset = 0;
+  Node *prev = NULL;
+  for (Node *arg = node->args; arg; arg = arg->next) {
+    if (!arg->pass_by_stack)
+      continue;
+
+    arg->stack_padding = 0;
+    if (arg->ty->align > 8 && offset % 16) {
+      prev->stack_padding = 8;
+      offset += 8;
+      stack++;
+    }
+
+    switch (arg->ty->kind) {
+    case TY_STRUCT:
+    case TY_UNION:
+      offset += align_to(arg->ty->size, 8);
+      break;
+    case TY_LDOUBLE:
+      offset += 16;
+      break;
+    default:
+      offset += 8;
+    }
+    prev = arg;
   }
 
   if ((depth + stack) % 2 == 1) {
@@ -1495,7 +1530,7 @@ static void assign_lvar_offsets(Obj *prog) {
         }
       }
 
-      top = align_to(top, 8);
+      top = align_to(top, MAX(8, var->align));
       var->offset = top;
       top += var->ty->size;
     }
